@@ -111,23 +111,6 @@ theorem Bal.push {m : Mem} (hb : Bal m) {n : Node} (hl : n.live = true)
       omega
 
 
-theorem freeNode_get (m : Mem) (s : Nat) (n : Node) (j : Nat) :
-    (freeNode m s n).get j = if j = s ∧ s < m.size then { n with live := false } else m.get j :=
-  Mem.get_put m s j { n with live := false }
-
-theorem freeNode_size (m : Mem) (s : Nat) (n : Node) : (freeNode m s n).size = m.size := by
-  simp [freeNode, Mem.size, Mem.put]
-
-theorem freeNode_freed (m : Mem) (s : Nat) (n : Node) : (freeNode m s n).freed = m.freed ++ [s] := by
-  simp [freeNode]
-
-theorem freeNode_blocks (m : Mem) (s : Nat) (n : Node) :
-    (freeNode m s n).blocks = m.blocks - attrBlocks n.attrs - dataBlocks n.data - 1 := by
-  simp [freeNode]
-
-theorem freeNode_liveBlocks (m : Mem) (s : Nat) (n : Node) :
-    (freeNode m s n).liveBlocks = (m.put s { n with live := false }).liveBlocks := rfl
-
 theorem Bal.free_node {m : Mem} (hb : Bal m) {s : Nat} (hl : (m.get s).live = true) :
     Bal (Store.freeNode m s (m.get s)) := by
   have hs : s < m.size := Mem.live_lt hl
@@ -558,30 +541,9 @@ theorem bal_reply {m m' : Mem} {s : Nat} {r : Option Nat} (hb : Bal m) (h : repl
     exact bal_importTree t m _ _ hb (Stanza.tabsWF_reply _ _ hw hr) h1
 
 
-theorem bal_replyError {m m' : Mem} {s : Nat} {et cond tx : Option Bytes} {r : Option Nat} (hb : Bal m)
-    (h : replyError m s et cond tx = .ok (m', r)) : Bal m' := by
-  unfold replyError at h
-  split at h
-  case h_2 => rw [pure_ok] at h; cases h; exact hb
-  rw [bind_ok] at h
-  obtain ⟨⟨ma, ra⟩, ha, h⟩ := h
-  have hba := bal_reply hb ha
-  try simp only [] at h
-  split at h
-  · rw [pure_ok] at h; cases h; exact hba
-  rw [bind_ok] at h
-  obtain ⟨⟨mb, rb⟩, hb1, h⟩ := h
-  have hbb := bal_setAttribute hba hb1
-  try simp only [] at h
-  rw [bind_ok] at h
-  obtain ⟨to, _, h⟩ := h
-  rw [bind_ok] at h
-  obtain ⟨⟨mc, rc⟩, hc1, h⟩ := h
-  have hb0 : Bal mc := by
-    cases to with
-    | none => simp only [] at hc1; rw [pure_ok] at hc1; cases hc1; exact hbb
-    | some to => exact bal_setAttribute hbb hc1
-  try simp only [] at h
+theorem bal_replyErrorBody {m m' : Mem} {r : Nat} {et cond : Bytes} {tx : Option Bytes} {res : Option Nat}
+    (hb0 : Bal m) (h : replyErrorBody m r et cond tx = .ok (m', res)) : Bal m' := by
+  unfold replyErrorBody at h
   try simp only [stanzaNew_eq] at h
   have hb1 := Bal.push hb0 (n := Node.fresh) rfl (by intro t ht; cases ht)
   rw [bind_ok] at h
@@ -653,6 +615,29 @@ theorem bal_replyError {m m' : Mem} {s : Nat} {et cond tx : Option Bytes} {r : O
   have hb29 := (bal_release _).1 _ _ _ _ hb28 h29
   try simp only [] at h
   rw [pure_ok] at h; cases h; exact hb29
+
+theorem bal_replyError {m m' : Mem} {s : Nat} {et cond tx : Option Bytes} {r : Option Nat} (hb : Bal m)
+    (h : replyError m s et cond tx = .ok (m', r)) : Bal m' := by
+  unfold replyError at h
+  split at h
+  case h_2 => rw [pure_ok] at h; cases h; exact hb
+  rw [bind_ok] at h
+  obtain ⟨⟨ma, ra⟩, ha, h⟩ := h
+  have hba := bal_reply hb ha
+  simp only [] at h
+  split at h
+  · rw [pure_ok] at h; cases h; exact hba
+  rw [bind_ok] at h
+  obtain ⟨⟨mb, rb⟩, hb1, h⟩ := h
+  have hbb := bal_setAttribute hba hb1
+  simp only [] at h
+  rw [bind_ok] at h
+  obtain ⟨to, _, h⟩ := h
+  split at h
+  · rw [bind_ok] at h
+    obtain ⟨⟨mc, rc⟩, hc1, h⟩ := h
+    exact bal_replyErrorBody (bal_setAttribute hbb hc1) h
+  · exact bal_replyErrorBody hbb h
 
 theorem bal_errorNew {m m' : Mem} {ty : Int} {tx : Option Bytes} {r : Nat} (hb : Bal m)
     (h : errorNew m ty tx = .ok (m', r)) : Bal m' := by
